@@ -387,6 +387,19 @@ func (c cfgSub) reify(opts *options) (interface{}, error) {
 	fields := c.c.fields.dict()
 	arr := c.c.fields.array()
 
+	// reifyElem names the setting a failure belongs to: the callers only know
+	// the path of the value the whole tree hangs below
+	reifyElem := func(v value) (interface{}, error) {
+		r, err := v.reify(opts)
+		if err != nil {
+			if _, ok := err.(Error); !ok {
+				ctx := v.Context()
+				return nil, raisePathErr(err, v.meta(), "", ctx.path("."))
+			}
+		}
+		return r, err
+	}
+
 	switch {
 	case len(fields) == 0 && len(arr) == 0 && arr != nil:
 		// preserve empty arrays
@@ -399,7 +412,7 @@ func (c cfgSub) reify(opts *options) (interface{}, error) {
 			v := fields[k]
 			opts.activeFields = newFieldSet(parentFields)
 			var err error
-			if m[k], err = v.reify(opts); err != nil {
+			if m[k], err = reifyElem(v); err != nil {
 				return nil, err
 			}
 		}
@@ -409,7 +422,7 @@ func (c cfgSub) reify(opts *options) (interface{}, error) {
 		for i, v := range arr {
 			opts.activeFields = newFieldSet(parentFields)
 			var err error
-			if m[i], err = v.reify(opts); err != nil {
+			if m[i], err = reifyElem(v); err != nil {
 				return nil, err
 			}
 		}
@@ -420,14 +433,14 @@ func (c cfgSub) reify(opts *options) (interface{}, error) {
 			v := fields[k]
 			opts.activeFields = newFieldSet(parentFields)
 			var err error
-			if m[k], err = v.reify(opts); err != nil {
+			if m[k], err = reifyElem(v); err != nil {
 				return nil, err
 			}
 		}
 		for i, v := range arr {
 			opts.activeFields = newFieldSet(parentFields)
 			var err error
-			m[fmt.Sprintf("%d", i)], err = v.reify(opts)
+			m[fmt.Sprintf("%d", i)], err = reifyElem(v)
 			if err != nil {
 				return nil, err
 			}
